@@ -281,6 +281,7 @@ class Coverage(object):
     def __init__(self, root):
         self.root = os.path.join(os.path.realpath(root), "geomdl")
         self.hits = set()
+        self._files = {}
 
     def _local(self, frame, event, arg):
         if event == "line":
@@ -288,9 +289,13 @@ class Coverage(object):
         return self._local
 
     def _global(self, frame, event, arg):
-        if event == "call" and os.path.realpath(frame.f_code.co_filename).startswith(self.root):
-            return self._local
-        return None
+        if event != "call":
+            return None
+        fn = frame.f_code.co_filename
+        hit = self._files.get(fn)
+        if hit is None:
+            hit = self._files[fn] = os.path.realpath(fn).startswith(self.root)
+        return self._local if hit else None
 
     def start(self):
         sys.settrace(self._global)
